@@ -11,6 +11,7 @@ import (
 	"strconv"
 	"strings"
 	"sync"
+	"sync/atomic"
 	"time"
 
 	mcp "trpc.group/trpc-go/trpc-mcp-go"
@@ -162,14 +163,24 @@ func openSession(kind kit.Kind, fixture string, seed int64, tier string, reg fun
 	return s, nil
 }
 
+var (
+	closeMaxMilli  atomic.Int64
+	closeAbandoned atomic.Int64
+)
+
 func (s *session) close() {
 	if s.c != nil {
 		done := make(chan struct{})
 		c := s.c
+		start := time.Now()
 		go func() { c.Close(); close(done) }()
 		select {
 		case <-done:
 		case <-time.After(10 * time.Second):
+			closeAbandoned.Add(1)
+		}
+		if ms := time.Since(start).Milliseconds(); ms > closeMaxMilli.Load() {
+			closeMaxMilli.Store(ms)
 		}
 		s.c = nil
 	}
@@ -563,6 +574,8 @@ func main() {
 
 	// --- descriptors ---
 	runDescriptors(r)
+	r.Max("client_close_ms", closeMaxMilli.Load())
+	r.Count("client_close_abandoned_after_10s", closeAbandoned.Load())
 
 	r.Finish("values: one atom per (method, content kind, string class) + extras (error flag, structured content depth 0-5, roles, descriptions, empty sequences) + handler errors per message class + seeded random combinations "+
 		"(tool results 0-6 items x isError x structured content, prompt results 0-4 messages x roles x description, resource reads 1-4 contents; 40% drawn from text/image with non-empty strings, 60% from all five kinds and all classes); "+
@@ -677,18 +690,31 @@ func judgeValues(r *vh.Run, tbl []caseSpec, runs []*kindRun) {
 					findings = append(findings, finding{Method: c.Method, Kind: kr.kind, Content: it.Kind, Class: it.Class, Symptom: sym,
 						What: fmt.Sprintf("%s %s: a single %s item of string class %s: %s", kr.kind, c.Method, it.Kind, it.Class, firstDetail(res, sym)), Witness: wit()})
 				default:
-					// a combination: explained when the single-item case of one of the implicated components fails the same way
-					explained := false
-					var cand []itemSpec
-					if len(idxs) == 0 || idxs[0] < 0 {
-						cand = c.Items
-					} else {
+					// a difference located in one item of a combination is attributed to that item's (kind, class)
+					if len(idxs) > 0 && idxs[0] >= 0 {
+						seen := map[int]bool{}
 						for _, ix := range idxs {
-							if ix >= 0 && ix < len(c.Items) {
-								cand = append(cand, c.Items[ix])
+							if ix < 0 || ix >= len(c.Items) || seen[ix] {
+								continue
 							}
+							seen[ix] = true
+							it := c.Items[ix]
+							detail := ""
+							for _, d := range res.Diffs {
+								if d.Symptom == sym && d.Item == ix {
+									detail = d.Detail
+									break
+								}
+							}
+							findings = append(findings, finding{Method: c.Method, Kind: kr.kind, Content: it.Kind, Class: it.Class, Symptom: sym,
+								What: fmt.Sprintf("%s %s: item %d (%s, string class %s) of a %d-item result: %s", kr.kind, c.Method, ix, it.Kind, it.Class, len(c.Items), detail), Witness: wit()})
 						}
+						continue
 					}
+					// a failure of the whole combination (client error, item count): explained when the single-item case
+					// of one of its components fails the same way on the same configuration
+					explained := false
+					cand := c.Items
 					for _, it := range cand {
 						if atomSym[atomKey{kr.kind, c.Method, it.Kind, it.Class}][sym] {
 							explained = true
